@@ -75,7 +75,54 @@ fn run<S: Src, const N: usize, const K: usize>(s: &mut S) {
     core::mem::forget((r_clone, r_cons, nodes, ops));
 }
 
+/// concrete *shape* (which node is a literal / variable 0 / variable 1) and concrete application order,
+/// symbolic values and unary flags: cheap enough for the quick tier and reaches repetition patterns
+/// that need 3 or 4 nodes (a variable used three times; two variables used twice each, interleaved;
+/// a once-used variable next to a repeated one)
+fn shape_case<S: Src, const N: usize, const K: usize>(s: &mut S, shape: [u8; N], order: [usize; K]) {
+    let x0 = s.u32(); let x1 = s.u32();
+    let mut lit = [0u32; N]; let mut has_un = [false; N];
+    for i in 0..N { lit[i] = s.u32(); has_un[i] = s.bool(); }
+    let nodes: [FlatNode<M>; N] = core::array::from_fn(|i| FlatNode {
+        kind: match shape[i] { 0 => FlatNodeKind::Num(M { v: lit[i], id: 2, moved: false }), k => FlatNodeKind::Var(k as usize - 1) },
+        unary_op: if has_un[i] { UnaryOp::from_vec(smallvec::smallvec![UnaryFuncWithIdx { f: un as fn(M) -> M, idx: 0 }]) } else { UnaryOp::new() },
+    });
+    let ops: [FlatOp<M>; K] = core::array::from_fn(|i| FlatOp { unary_op: UnaryOp::new(), bin_op: BinOpWithIdx { op: BinOp { apply: op as fn(M, M) -> M, prio: 0, is_commutative: false }, idx: i } });
+    let mut vals = [0u32; N]; let mut live = [true; N];
+    for i in 0..N {
+        let base = match shape[i] { 0 => lit[i], 1 => x0, _ => x1 };
+        vals[i] = if has_un[i] { base.wrapping_mul(3).wrapping_add(1) } else { base };
+    }
+    for &k in order.iter() {
+        let mut l = k; while !live[l] { l -= 1; }
+        let mut r = k + 1; while !live[r] { r += 1; }
+        vals[l] = comb(vals[l], vals[r]); live[r] = false;
+    }
+    let expect = vals[0];
+    let vars = [M { v: x0, id: 0, moved: false }, M { v: x1, id: 1, moved: false }];
+    let r_clone = eval_flatex_cloning(&vars, &nodes, &ops, &order);
+    unsafe { CLONES = [0; 3]; }
+    let mut owned = [M { v: x0, id: 0, moved: false }, M { v: x1, id: 1, moved: false }];
+    let r_cons = eval_flatex_consuming_vars(&mut owned, &nodes, &ops, &order);
+    match (&r_clone, &r_cons) {
+        (Ok(a), Ok(b2)) => {
+            assert!(a.v == expect && !a.moved, "C15 borrowing evaluation equals the reference reduction");
+            assert!(b2.v == expect && !b2.moved, "C15 consuming evaluation equals borrowing evaluation");
+        }
+        _ => assert!(false, "C15 both evaluations return Ok"),
+    }
+    for v in 0..2usize {
+        let mut occ = 0; for i in 0..N { if shape[i] as usize == v + 1 { occ += 1; } }
+        if occ == 1 { assert!(unsafe { CLONES[v] } == 0, "C15 a variable that occurs exactly once is moved, not cloned"); }
+    }
+    core::mem::forget((r_clone, r_cons, nodes, ops));
+}
+harness!(shape_xxx, unwind = 7, |s| { shape_case::<S, 3, 2>(s, [1, 1, 1], [0, 1]) });
+harness!(shape_xyx, unwind = 7, |s| { shape_case::<S, 3, 2>(s, [1, 2, 1], [1, 0]) });
+harness!(shape_yxyx, unwind = 8, |s| { shape_case::<S, 4, 3>(s, [2, 1, 2, 1], [0, 1, 2]) });
+harness!(shape_xlyx, unwind = 8, |s| { shape_case::<S, 4, 3>(s, [1, 0, 2, 1], [2, 0, 1]) });
+
 harness!(consuming_vs_cloning_2, unwind = 6, |s| { run::<S, 2, 1>(s) });
 harness!(consuming_vs_cloning_3, unwind = 7, |s| { run::<S, 3, 2>(s) });
 
-registry!("c15", consuming_vs_cloning_2, consuming_vs_cloning_3);
+registry!("c15", consuming_vs_cloning_2, consuming_vs_cloning_3, shape_xxx, shape_xyx, shape_yxyx, shape_xlyx);
